@@ -253,7 +253,7 @@ func (vc *VC) define(v ssa.Value, t Term) {
 	if b, ok := vc.allocBlock[t.S]; ok {
 		vc.allocBlock[n] = b
 	}
-	vc.vals[v] = Term{S: n, Sort: t.Sort, T: v.Type(), Loc: t.Loc}
+	vc.vals[v] = Term{S: n, Sort: t.Sort, T: v.Type(), Loc: t.Loc, Prov: t.Prov}
 }
 
 // bind binds v to a fresh unconstrained constant (plus its type invariant).
@@ -677,6 +677,36 @@ func (vc *VC) bindDebugNames(e *Env, li *loopInfo) {
 	}
 }
 
+// bindBodyNames binds source names of values defined inside loop li (one SSA value per name).
+func (vc *VC) bindBodyNames(e *Env, li *loopInfo) {
+	cands := map[string]map[ssa.Value]bool{}
+	for b := range li.blocks {
+		for _, in := range b.Instrs {
+			d, ok := in.(*ssa.DebugRef)
+			if !ok || d.IsAddr || d.Object() == nil {
+				continue
+			}
+			if _, isVar := d.Object().(*types.Var); !isVar {
+				continue
+			}
+			if cands[d.Object().Name()] == nil {
+				cands[d.Object().Name()] = map[ssa.Value]bool{}
+			}
+			cands[d.Object().Name()][d.X] = true
+		}
+	}
+	for name, vs := range cands {
+		if _, bound := e.vars[name]; bound || len(vs) != 1 {
+			continue
+		}
+		for v := range vs {
+			if t, ok := vc.vals[v]; ok {
+				e.vars[name] = t
+			}
+		}
+	}
+}
+
 func (vc *VC) loopClauses(li *loopInfo, kind string) []*Clause {
 	var out []*Clause
 	for _, c := range vc.spec.Clauses {
@@ -831,6 +861,10 @@ func (vc *VC) loopHeader(li *loopInfo, b *ssa.BasicBlock, st *State, back map[[2
 		}
 		vc.assumeG(rname, s)
 	}
+	if vc.loopHead == nil {
+		vc.loopHead = map[*loopInfo]*State{}
+	}
+	vc.loopHead[li] = nst.clone(vc)
 	// remember the measure at the head
 	for _, c := range vc.loopClauses(li, "decreases") {
 		t, err := env.translate(c.Expr)
@@ -862,6 +896,20 @@ func (vc *VC) loopBackEdge(li *loopInfo, from, header *ssa.BasicBlock, st *State
 			panic(execErr(vc.clauseErr(c, err).Error()))
 		}
 		vc.oblige(fmt.Sprintf("loop%d.preserved", li.ordinal), c.label(), c.Props, cond, s, "invariant preserved by the body: "+c.Text, from.Instrs[len(from.Instrs)-1].Pos())
+	}
+	// per-iteration postconditions: iter(e) is e at the start of the iteration
+	if hs := vc.loopHead[li]; hs != nil {
+		ienv := vc.loopEnv(li, st, func(phi *ssa.Phi) Term { return vc.vals[phi] })
+		ienv.states = map[string]*State{"$iter": hs}
+		// values defined in the body are visible by their source names
+		vc.bindBodyNames(ienv, li)
+		for _, c := range vc.loopClauses(li, "iteration") {
+			s, err := ienv.boolean(c.Expr)
+			if err != nil {
+				panic(execErr(vc.clauseErr(c, err).Error()))
+			}
+			vc.oblige(fmt.Sprintf("loop%d.iteration", li.ordinal), c.label(), c.Props, cond, s, "each iteration establishes: "+c.Text, from.Instrs[len(from.Instrs)-1].Pos())
+		}
 	}
 	for _, c := range vc.loopClauses(li, "decreases") {
 		t, err := env.translate(c.Expr)
